@@ -15,7 +15,9 @@ vars == <<fv, pc>>
 
 NumKinds == {"int32", "int64", "uint32", "uint64", "sint32", "sint64", "fixed32", "fixed64", "sfixed32", "sfixed64", "float", "double"}
 NumRules == {"gt", "gte", "lt", "lte", "gt_lt", "gte_lte", "gte_lte_eq", "in", "const"}
-BoundClasses == {"neg", "zero", "small", "big53", "extreme"}
+\* inexact: a bound like 0.1 that no binary float holds exactly (what is published must be the shortest
+\* text that reads back as the field's own value, or float fields lose their own bound)
+BoundClasses == {"neg", "zero", "small", "big53", "extreme", "inexact"}
 StrRules == {"minLen", "maxLen", "len_range", "pattern", "in", "const", "in_numeric_looking", "email", "uuid", "uri", "hostname", "ipv4", "ipv6", "required"}
 RepRules == {"minItems", "maxItems", "items_range", "unique"}
 MapRules == {"minPairs", "maxPairs"}
@@ -31,6 +33,7 @@ Exists(c) ==
   /\ (c.bclass = "neg" => c.kind \notin UnsignedKinds)
   /\ (c.bclass = "big53" => c.kind \in Int64Kinds \cup {"double"})
   /\ (c.enc = "int64_number" => c.kind \in Int64Kinds)
+  /\ (c.bclass = "inexact" => c.kind \in {"float", "double"})
 
 Init == fv \in {c \in Cases : Exists(c)} /\ pc = "new"
 Next == /\ pc = "new" /\ pc' = "done" /\ UNCHANGED fv
